@@ -208,6 +208,12 @@ def run_case(ctx, desc):
     rng.shuffle(fresh)
     if len(fresh) >= len(names):
         check_equiv(ctx, S, parsed, sigm.rename(parsed, dict(zip(names, fresh))), "fresh")
+    # non-injective renamings: every way of merging two of the names present into one
+    if len(names) >= 2 and (kind == "S" or ctx.case_index % 3 == 0):
+        import itertools as _it
+
+        for n1, n2 in _it.permutations(names, 2):
+            check_equiv(ctx, S, parsed, sigm.rename(parsed, {n1: n2}), "merge-two-names")
     if kind == "S" or ctx.case_index % 5 == 0:
         # single-occurrence mis-renaming: one occurrence gets another name
         occ = [(side, ai, pi) for side in (0, 1) for ai, arg in enumerate(parsed[side]) for pi in range(len(arg))]
